@@ -195,32 +195,59 @@ def explore(ctx):
                              'payload': {'query': c.query, 'input_lines': c.lines[:30], 'terminal': [h, w], 'screen': scr['lines']}})
         if w <= 40 or len(rows_present) > h - 3:
             nontrivial.add(c.query + '\0' + str((h, w)) + c.inp.decode('utf8', 'replace'))
-    # ---- records: every field as [name=value], column order stable across rows
+    # ---- records: every field as [name=value], column order stable across rows; text equal to the model's
     rec_checked = 0
-    for i in range(30 if quick else 400):
-        rows = gen.gen_rows(rng, rng.randint(1, 15), rich=False)
-        inp = ''.join(gen.jtext(r) for r in rows).encode('utf8')
-        o = aglib.run_impl_one('* | json', inp, None)
+    rec_cases = []
+    for i in range(40 if quick else 600):
+        rows = gen.gen_rows(rng, rng.randint(1, 15), rich=(i % 3 == 0))
+        if i % 5 == 0:
+            rows.insert(rng.randrange(len(rows) + 1), {})
+        rec_cases.append(Case('r%d' % i, STAR, [('json', None)], [gen.jtext(r) for r in rows], {'records'}, note={'rows': rows}))
+    routs = aglib.run_impl_many([(c.query, c.inp, None, ()) for c in rec_cases])
+    rmodel = aglib.run_model_many([qast.print_case_sexp(('legacy', None), c.filt, c.stages, c.lines) for c in rec_cases])
+    for c, o, m in zip(rec_cases, routs, rmodel):
+        rows = c.note['rows']
         if o['rc'] != 0:
             continue
         rec_checked += 1
+        got = o['out'].decode('utf8', 'replace')
+        if not isinstance(m, sexp.Sym) and got != m[2]:
+            failures.append({'kind': 'corr', 'what': 'record text differs from the model', 'payload': {'query': c.query, 'input_lines': c.lines[:30], 'output': got[:2000], 'model_output': m[2][:2000]}})
         order = {}
-        lines = o['out'].decode('utf8', 'replace').split('\n')
+        lines = got.split('\n')
         for li, (line, row) in enumerate(zip(lines, rows)):
             names = re.findall(r'\[([A-Za-z_][A-Za-z0-9_]*)=', line)
             for k, v in row.items():
                 tok = '[%s=%s]' % (k, cell_text(v))
                 if tok not in line:
                     failures.append({'kind': 'spec', 'what': 'record line does not show field %s as %s: %r' % (k, tok, line),
-                                     'payload': {'query': '* | json', 'input_lines': [gen.jtext(r) for r in rows]}})
+                                     'payload': {'query': '* | json', 'input_lines': c.lines}})
                     break
             seq = [nm for nm in names if nm in row]
             for a in range(len(seq)):
                 for b in range(a + 1, len(seq)):
                     if order.get((seq[b], seq[a])):
                         failures.append({'kind': 'spec', 'what': 'column order of record output is not stable: %s/%s swapped at line %d' % (seq[a], seq[b], li),
-                                         'payload': {'query': '* | json', 'input_lines': [gen.jtext(r) for r in rows]}})
+                                         'payload': {'query': '* | json', 'input_lines': c.lines}})
                     order[(seq[a], seq[b])] = True
+    # records on narrow terminals: the overflow reset path, byte stream compared with the model
+    rjobs = []
+    for i in range(12 if quick else 200):
+        rows = gen.gen_rows(rng, rng.randint(2, 10), rich=False)
+        c = Case('rt%d' % i, STAR, [('json', None)], [gen.jtext(r) for r in rows], {'records', 'tty'}, note={'rows': rows})
+        rjobs.append((c, rng.choice([6, 24]), rng.choice([20, 40, 60, 100])))
+    with ThreadPoolExecutor(8) as ex:
+        rpouts = list(ex.map(lambda j: ptydrive.run_pty(j[0].query, [(j[0].inp, 0)], j[1], j[2]), rjobs))
+    rpm = aglib.run_model_many([qast.print_case_sexp(('legacy', (w, h)), c.filt, c.stages, c.lines) for (c, h, w) in rjobs])
+    for (c, h, w), o, m in zip(rjobs, rpouts, rpm):
+        if o['rc'] != 0 or b'panicked' in o['err']:
+            failures.append({'kind': 'spec', 'what': 'record printing on a %dx%d terminal crashed (rc=%s)' % (h, w, o['rc']), 'payload': {'query': c.query, 'input_lines': c.lines, 'terminal': [h, w]}})
+            continue
+        rec_checked += 1
+        got = o['out'].decode('utf8', 'replace').replace('\r\n', '\n')
+        if not isinstance(m, sexp.Sym) and got != m[2]:
+            failures.append({'kind': 'corr', 'what': 'record text on a %dx%d terminal differs from the model' % (h, w),
+                             'payload': {'query': c.query, 'input_lines': c.lines[:30], 'terminal': [h, w], 'output': got[:2000], 'model_output': m[2][:2000]}})
     cov = {
         'evaluations': len(cases) + len(jobs) + rec_checked, 'distinct_nontrivial': len(nontrivial),
         'rule': 'tables of 1..30 columns x 0..200 rows (cells from empty to 120 characters, multi-byte text, long and non-ASCII column names, missing cells, nested values): '
